@@ -225,6 +225,31 @@ def gen_c04(r, tier):
             if tier == 'thorough' and r.chance(0.4):
                 a['storage_fault']['enumerate'] = True
         ops.append(a)
+    if r.chance(0.1):
+        # a comparison that dies of an I/O error while reporting a changed
+        # line, then - on the same object - the mirror-image change checked
+        # with a permutation allowance: what the first one had noted must
+        # not count for the second
+        who = r.pick(clients)['id']
+        kind = r.pick(KINDS[:3])
+        a, b = r.sample(gl.WORDS, 2)
+        pre = gl.gen_line(r)
+        t1, t2 = '%s\nrow %s\n' % (pre, a), '%s\nrow %s\n' % (pre, b)
+        ops += [
+            {'op': 'write_ref', 'client': who, 'kind': kind,
+             'ref': 'm0.txt', 'text': t1},
+            {'op': 'assert_string', 'client': who, 'kind': kind,
+             'ref': 'm0.txt', 'actual': t2,
+             'opts': {'max_permutation_cases': r.randint(1, 3)},
+             'muts': ['word'],
+             'fault': {'kind': r.pick(['eacces', 'enospc']), 'site': 0,
+                       'short': 0}},
+            {'op': 'write_ref', 'client': who, 'kind': kind,
+             'ref': 'm1.txt', 'text': t2},
+            {'op': 'assert_string', 'client': who, 'kind': kind,
+             'ref': 'm1.txt', 'actual': t1,
+             'opts': {'max_permutation_cases': r.randint(2, 3)},
+             'muts': ['word']}]
     return {'config': {'clients': clients, 'tmp_dir_configured': True,
                        'share_option_lists': r.chance(0.35),
                        'default_encoding': r.weighted([(9, None),
@@ -383,9 +408,17 @@ def gen_c10(r, tier):
                 # the same reference is used again later in the history
                 # (checked, then regenerated with other content, ...)
                 src = r.pick(prev)
-                for k in ('client', 'kind', 'ref', 'refs'):
-                    if k in src:
-                        op[k] = src[k]
+                if r.chance(0.3):
+                    # the same reference *name* under another kind (whose
+                    # own location may hold no such file yet)
+                    for k in ('client', 'ref', 'refs'):
+                        if k in src:
+                            op[k] = src[k]
+                    op['ref_exists'] = False
+                else:
+                    for k in ('client', 'kind', 'ref', 'refs'):
+                        if k in src:
+                            op[k] = src[k]
             if r.chance(0.25):
                 # I/O error at a write site (only armed by the executor for
                 # normal-mode assertions)
